@@ -115,6 +115,13 @@ func (c13) RunCase(c *core.Ctx) {
 	if c.Case%25 == 3 && !c13Errors(c) {
 		return
 	}
+	if c.Case%100 == 9 {
+		c.Eval(6)
+		if problem := dRowTransforms(); problem != "" {
+			c.Violation("modes-disagree|row-transforms-after-an-earlier-issue", map[string]any{"schema": "Slice(Slice(String().Min(2)).PostTransform(upper-case the row))", "observed": problem})
+			return
+		}
+	}
 	if c.Case%100 == 8 {
 		c.Eval(4)
 		if problem := dModesAgreeOnNames(); problem != "" {
